@@ -87,7 +87,9 @@ def gen_case(rng, tier):
                # an 8-bit unaligned immediate behind a 4-bit opcode (12-bit instruction), also as the second step of a macro
                'unfit-subbyte': rng.choice(['ldn 256', 'ldn -129', 'ldn2 255', 'ld4 16', 'ld4 -9', 'ld4 200', 'ld4 $FF',
                                             'ld4 -%d' % rng.randint(9, 15), 'ld4 0 - %d' % rng.randint(9, 15), 'ld4 -16', 'ld4 -17',
-                                            'ld4 -%d' % rng.randint(9, 15), 'ld4 -15', 'ld4 -9']),
+                                            'ld4 -%d' % rng.randint(9, 15), 'ld4 -15', 'ld4 -9',
+                                            # below an explicit lower bound of 0, above the upper bound of 7
+                                            'bit3 -1', 'bit3 -4', 'bit3 0 - 2', 'bit3 8', 'bit3 -1']),
                # an empty operand field (trailing, doubled, leading or lone comma) is an operand no variant accepts: dropping
                # the empty fields would leave a valid statement
                'empty-operand': rng.choice(['op3 1, 2,', 'op3 1,,2', 'op3 ,1,2', 'op1 5,', 'op1 ,5', 'nop ,', 'op2 7 ,', 'op3 1 , , 2']),
